@@ -18,6 +18,11 @@ use std::collections::BTreeMap;
 use std::panic::{catch_unwind, AssertUnwindSafe};
 use std::time::Instant;
 
+thread_local! {
+    /// (obligations passed to the second solver, decided there)
+    pub static FALLBACK: std::cell::RefCell<(u64, u64)> = const { std::cell::RefCell::new((0, 0)) };
+}
+
 pub struct Ops {
     pub add: u16,
     pub sub: u16,
@@ -130,6 +135,100 @@ pub fn dual(t: &Tree, var: &str) -> Result<(Sym, Option<Sym>), String> {
     })
 }
 
+/// Symbolic derivative as a tree (same textbook rules as `dual`), `None` = identically zero.
+/// Used to build references for higher-order derivatives: d2 = dual(dtree(t, x), y).
+pub fn dtree(t: &Tree, var: &str) -> Result<Option<Tree>, String> {
+    let o = ops();
+    let r1 = || Tree::lit("1");
+    let mul = |a: Tree, c: Tree| Tree::bin(o.mul, a, c);
+    let div = |a: Tree, c: Tree| Tree::bin(o.div, a, c);
+    let add = |a: Tree, c: Tree| Tree::bin(o.add, a, c);
+    let sub = |a: Tree, c: Tree| Tree::bin(o.sub, a, c);
+    let un = |r: &str, a: Tree| Tree::un(k(r), a);
+    Ok(match t {
+        Tree::Lit(_) | Tree::Konst(_) => None,
+        Tree::Var(n) => {
+            if n == var {
+                Some(r1())
+            } else {
+                None
+            }
+        }
+        Tree::Paren(a) => dtree(a, var)?,
+        Tree::Un(kk, a) => {
+            let name = table::repr_of(*kk);
+            let v = (**a).clone();
+            match dtree(a, var)? {
+                None => None,
+                Some(d) => Some(match name.as_str() {
+                    "+" => d,
+                    "-" => un("-", d),
+                    "sin" => mul(un("cos", v), d),
+                    "cos" => mul(un("-", un("sin", v)), d),
+                    "tan" => div(d, mul(un("cos", v.clone()), un("cos", v))),
+                    "asin" => div(d, un("sqrt", sub(r1(), mul(v.clone(), v)))),
+                    "acos" => un("-", div(d, un("sqrt", sub(r1(), mul(v.clone(), v))))),
+                    "atan" => div(d, add(r1(), mul(v.clone(), v))),
+                    "sinh" => mul(un("cosh", v), d),
+                    "cosh" => mul(un("sinh", v), d),
+                    "tanh" => mul(sub(r1(), mul(un("tanh", v.clone()), un("tanh", v))), d),
+                    "asinh" => div(d, un("sqrt", add(mul(v.clone(), v), r1()))),
+                    "acosh" => div(d, mul(un("sqrt", sub(v.clone(), r1())), un("sqrt", add(v, r1())))),
+                    "atanh" => div(d, sub(r1(), mul(v.clone(), v))),
+                    "exp" => mul(un("exp", v), d),
+                    "ln" | "log" => div(d, v),
+                    "log2" => div(d, mul(v, un("ln", Tree::lit("2")))),
+                    "log10" => div(d, mul(v, un("ln", Tree::lit("10")))),
+                    "sqrt" => div(d, mul(Tree::lit("2"), un("sqrt", v))),
+                    other => return Err(format!("no derivative rule for {other}")),
+                }),
+            }
+        }
+        Tree::Bin(kk, l, r) | Tree::Call(kk, l, r) => {
+            let name = table::repr_of(*kk);
+            let (lv, rv) = ((**l).clone(), (**r).clone());
+            let (ld, rd) = (dtree(l, var)?, dtree(r, var)?);
+            let plus = |x: Option<Tree>, y: Option<Tree>| match (x, y) {
+                (None, None) => None,
+                (Some(x), None) => Some(x),
+                (None, Some(y)) => Some(y),
+                (Some(x), Some(y)) => Some(Tree::bin(o.add, x, y)),
+            };
+            match name.as_str() {
+                "+" => plus(ld, rd),
+                "-" => match (ld, rd) {
+                    (None, None) => None,
+                    (Some(x), None) => Some(x),
+                    (None, Some(y)) => Some(un("-", y)),
+                    (Some(x), Some(y)) => Some(sub(x, y)),
+                },
+                "*" => plus(ld.map(|d| mul(d, rv.clone())), rd.map(|d| mul(lv.clone(), d))),
+                "/" => {
+                    let num = match (ld, rd) {
+                        (None, None) => None,
+                        (Some(x), None) => Some(mul(x, rv.clone())),
+                        (None, Some(y)) => Some(un("-", mul(lv.clone(), y))),
+                        (Some(x), Some(y)) => Some(sub(mul(x, rv.clone()), mul(lv.clone(), y))),
+                    };
+                    num.map(|n| div(n, mul(rv.clone(), rv.clone())))
+                }
+                "^" => {
+                    let t1 = ld.map(|d| mul(mul(rv.clone(), Tree::bin(o.pow, lv.clone(), sub(rv.clone(), r1()))), d));
+                    let t2 = rd.map(|d| mul(mul(t.clone(), un("ln", lv.clone())), d));
+                    plus(t1, t2)
+                }
+                "<" | "<=" | ">" | ">=" | "==" | "!=" => Some(t.clone()),
+                "if" | "else" => {
+                    let x = ld.unwrap_or_else(|| Tree::lit("0"));
+                    let y = rd.unwrap_or_else(|| Tree::lit("0"));
+                    Some(Tree::bin(*kk, x, y))
+                }
+                other => return Err(format!("no derivative rule for {other}")),
+            }
+        }
+    })
+}
+
 /// decide `domain(ref side) /\ lemmas /\ pc => imp = rf`
 pub fn decide_nra(imp: Id, rf: Id, domain_roots: &[Id], want_model: bool) -> (Verdict, BTreeMap<String, String>) {
     let trace = oracle::current_trace();
@@ -154,7 +253,20 @@ pub fn decide_nra(imp: Id, rf: Id, domain_roots: &[Id], want_model: bool) -> (Ve
         s.push_str(&format!("(assert {p})\n"));
     }
     s.push_str(&format!("(assert (distinct n{imp} n{rf}))\n(check-sat)\n"));
-    let (v, _) = with_solver(|sol| sol.check(&s));
+    let (mut v, _) = with_solver(|sol| sol.check(&s));
+    if v == Verdict::Inconclusive {
+        // second solver for the obligations the first one gives up on
+        oracle::init_solver2("z3", 20_000);
+        let (v2, _) = oracle::with_solver2(|sol| sol.check(&s));
+        FALLBACK.with(|f| {
+            let mut f = f.borrow_mut();
+            f.0 += 1;
+            if v2 != Verdict::Inconclusive {
+                f.1 += 1;
+            }
+        });
+        v = v2;
+    }
     let mut model = BTreeMap::new();
     if v == Verdict::Sat && want_model {
         let s2 = format!("{s}(get-value ({}))\n", em.free_consts.join(" "));
@@ -225,6 +337,14 @@ pub fn diff_pool(quick: bool, seed: u64) -> Vec<Tree> {
         pool.push(Tree::bin(o.div, v("y"), Tree::un(f, v("x"))));
         pool.push(Tree::bin(o.pow, Tree::un(f, v("x")), l("2")));
         pool.push(Tree::un(neg, Tree::un(f, Tree::un(neg, v("x")))));
+        // sign chains composed with the function in one unary operator: +f(x), -+f(x), +-f(x), y*+f(x*y), f(+x)
+        let plus = o.add;
+        pool.push(Tree::un(plus, Tree::un(f, v("x"))));
+        pool.push(Tree::un(neg, Tree::un(plus, Tree::un(f, v("x")))));
+        pool.push(Tree::un(plus, Tree::un(neg, Tree::un(f, Tree::bin(o.mul, v("x"), v("y"))))));
+        pool.push(Tree::bin(o.mul, v("y"), Tree::un(plus, Tree::un(f, Tree::bin(o.mul, v("x"), v("y"))))));
+        pool.push(Tree::un(f, Tree::un(plus, v("x"))));
+        pool.push(Tree::un(plus, Tree::un(f, Tree::un(plus, Tree::un(f, v("x"))))));
         pool.push(Tree::un(f, Tree::bin(o.pow, v("x"), l("2"))));
         pool.push(Tree::bin(o.sub, Tree::un(f, Tree::bin(o.div, v("x"), v("y"))), Tree::un(f, v("y"))));
         for &g in &fk {
@@ -286,7 +406,8 @@ pub fn par_calc<T: Sync>(args: &Args, tab: &Table, exact: bool, items: &[T], wor
         let mut hs = vec![];
         for w in 0..threads {
             hs.push(std::thread::Builder::new().stack_size(1 << 30).spawn_scoped(sc, move || {
-                oracle::init_solver(if quick { 20_000 } else { 120_000 });
+                // nonlinear real arithmetic: z3 5.1 (z3-new) answers obligations on which 4.8.12 gives up; 4.8.12 is the second opinion
+                oracle::init_solver_named("z3-new", if quick { 10_000 } else { 60_000 });
                 oracle::set_theory(Theory::Nra);
                 sym::set_exact_lits(exact);
                 table::set_table(tab);
@@ -411,14 +532,34 @@ fn check_derivative(tab: &Table, t: &Tree, order: usize, forms: &[Form], out: &m
     let names = t.var_names();
     out.stats.programs += 1;
     out.stats.note_text(order as u64, &text);
-    for vi in 0..names.len() {
+    // order 2: every ordered pair of variables (mixed partials included); reference = dual of the symbolic tree derivative
+    let index_lists: Vec<Vec<usize>> = if order == 1 {
+        (0..names.len()).map(|i| vec![i]).collect()
+    } else {
+        let mut v = vec![];
+        for i in 0..names.len() {
+            for j in 0..names.len() {
+                v.push(vec![i, j]);
+            }
+        }
+        v
+    };
+    for idxs in index_lists {
+        let vi = *idxs.last().unwrap();
         for &form in forms {
-            let idxs: Vec<usize> = vec![vi; order];
             let (paths, truncated) = explore(max_paths, || {
                 let r = catch_unwind(AssertUnwindSafe(|| differentiate(form, &text, &idxs)));
                 // reference: dual numbers, `order` times w.r.t. the same variable is only supported for order 1;
                 // higher orders are checked against sequential application (C09)
-                let reference = dual(t, &names[vi]);
+                let reference = if order == 1 {
+                    dual(t, &names[vi])
+                } else {
+                    match dtree(t, &names[idxs[0]]) {
+                        Err(e) => Err(e),
+                        Ok(None) => Ok((rat(0), None)),
+                        Ok(Some(d1)) => dual(&d1, &names[vi]),
+                    }
+                };
                 let fval = t.to_sym().0;
                 let mut res: Vec<(&'static str, String, String, String, BTreeMap<String, String>)> = vec![];
                 let mut vcs = 0u64;
@@ -432,7 +573,7 @@ fn check_derivative(tab: &Table, t: &Tree, order: usize, forms: &[Form], out: &m
                         if d.names != names {
                             res.push(("varnames", format!("{:?}", d.names), format!("{names:?}"), "derivative does not list the variables of its antiderivative".into(), BTreeMap::new()));
                         }
-                        if order == 1 {
+                        {
                             let rf = rd.unwrap_or_else(|| rat(0)).0;
                             vcs += 1;
                             if d.der == rf {
@@ -441,8 +582,8 @@ fn check_derivative(tab: &Table, t: &Tree, order: usize, forms: &[Form], out: &m
                             let (verdict, model) = decide_nra(d.der, rf, &[fval], true);
                             match verdict {
                                 Verdict::Unsat => {}
-                                Verdict::Sat => res.push(("value", show_term(d.der), show_term(rf), format!("d/d{} of `{text}` printed as `{}`", names[vi], d.text), model)),
-                                Verdict::Inconclusive => res.push(("inconclusive", show_term(d.der), show_term(rf), format!("d/d{} of `{text}`", names[vi]), BTreeMap::new())),
+                                Verdict::Sat => res.push(("value", show_term(d.der), show_term(rf), format!("derivative w.r.t. variables {idxs:?} of `{text}` printed as `{}`", d.text), model)),
+                                Verdict::Inconclusive => res.push(("inconclusive", show_term(d.der), show_term(rf), format!("derivative {idxs:?} of `{text}`"), BTreeMap::new())),
                             }
                         }
                         // C15 on a derived expression (variable list longer than the variables that occur)
@@ -505,7 +646,7 @@ fn check_derivative(tab: &Table, t: &Tree, order: usize, forms: &[Form], out: &m
                 }
             }
             if out.samples.len() < 2 && out.stats.programs % 37 == 0 {
-                out.samples.push(json!({"expression": text, "variable": names[vi], "form": form.name()}));
+                out.samples.push(json!({"expression": text, "variables": idxs, "form": form.name()}));
             }
         }
     }
@@ -612,7 +753,10 @@ pub fn c05(args: &Args) -> i32 {
     std::panic::set_hook(Box::new(|_| {}));
     // exact rational literals
     let tab1 = tab.clone();
-    let (o1, w1) = par_calc(args, &tab, true, &pool, &move |t: &Tree, _i, out| check_derivative(&tab1, t, 1, &forms_all, out, 64));
+    let only = args.get("only", "");
+    let want = |n: &str| only.is_empty() || n.contains(&only);
+    let empty: Vec<Tree> = vec![];
+    let (o1, w1) = par_calc(args, &tab, true, if want("derivative-exact-literals") { &pool } else { &empty }, &move |t: &Tree, _i, out| check_derivative(&tab1, t, 1, &forms_all, out, 64));
     let p1 = to_part("derivative-exact-literals", o1, w1, json!({
         "pool": format!("{} differentiable trees: all binary combinations of two leaves out of x, y, 2, 3, 0.5, 1, 0 over + - * / ^; three-leaf trees (both shapes); each of the 18 functions over a leaf, a product, a sum, a power, a quotient, nested in pairs, inside arithmetic; classic test expressions", pool.len()),
         "forms": forms_all.iter().map(|f| f.name()).collect::<Vec<_>>(),
@@ -623,11 +767,44 @@ pub fn c05(args: &Args) -> i32 {
     // literals as free constants: shortcut branches forked with symbolic content
     let small: Vec<Tree> = pool.iter().filter(|t| t.size() <= 4).cloned().step_by(if quick { 3 } else { 1 }).collect();
     let tab2 = tab.clone();
+    let small: Vec<Tree> = if want("derivative-symbolic-literals") { small } else { vec![] };
     let (o2, w2) = par_calc(args, &tab, false, &small, &move |t: &Tree, _i, out| check_derivative(&tab2, t, 1, &[Form::Flat, Form::Deep], out, 48));
     let p2 = to_part("derivative-symbolic-literals", o2, w2, json!({
         "pool": format!("{} trees with <=4 nodes of the pool above", small.len()),
         "literals": "free real constants: every is_zero / is_one shortcut is forked by the decision oracle and both feasible outcomes are explored (depth-first re-execution)",
         "max_paths_per_program": 48,
+    }));
+    // second order (every ordered pair of variables) on a slice of the pool
+    // quick: trees whose functions are applied to a variable only (second derivatives of nested functions are
+    // large nonlinear terms on which z3's nlsat does not always answer within the cap); thorough: the wider slice
+    fn simple(t: &Tree) -> bool {
+        match t {
+            Tree::Un(kk, a) => {
+                let r = table::repr_of(*kk);
+                if r == "+" || r == "-" {
+                    simple(a)
+                } else {
+                    matches!(**a, Tree::Var(_))
+                }
+            }
+            // a function in a denominator: the second derivative applies the quotient rule twice over an uninterpreted
+            // function, which z3 does not always decide within the quick cap
+            Tree::Bin(kk, a, b) | Tree::Call(kk, a, b) => simple(a) && simple(b) && !(table::repr_of(*kk) == "/" && matches!(**b, Tree::Un(..))),
+            Tree::Paren(a) => simple(a),
+            _ => true,
+        }
+    }
+    let pool2: Vec<Tree> = if quick {
+        pool.iter().filter(|t| t.size() <= 5 && simple(t)).step_by(3).cloned().collect()
+    } else {
+        pool.iter().filter(|t| t.size() <= 6).step_by(2).cloned().collect()
+    };
+    let tab3 = tab.clone();
+    let pool2: Vec<Tree> = if want("second-order") { pool2 } else { vec![] };
+    let (o3, w3) = par_calc(args, &tab, true, &pool2, &move |t: &Tree, _i, out| check_derivative(&tab3, t, 2, &[Form::Flat, Form::Deep], out, 48));
+    let p_second = to_part("second-order", o3, w3, json!({
+        "pool": format!("{} trees with <=6 nodes of the pool", pool2.len()),
+        "check": "partial_iter([i, j]) for every ordered pair of variables == dual-number derivative of the symbolic (tree) first derivative, i.e. derivatives of expressions produced by earlier differentiation",
     }));
     // operators without a derivative rule must give Err
     let t0 = Instant::now();
@@ -666,7 +843,7 @@ pub fn c05(args: &Args) -> i32 {
     sym::set_exact_lits(false);
     let _ = std::panic::take_hook();
     let p3 = to_part("no-rule-operators", no, t0.elapsed().as_secs_f64(), json!({"operators": ([NO_RULE_UNARY.to_vec(), NO_RULE_BINARY.to_vec()].concat()), "check": "partial must return Err for every variable, flat and deep (path-level)"}));
-    finish(args, "C05", vec![p1, p2, p3], vec![], json!({
+    finish(args, "C05", vec![p1, p2, p_second, p3], vec![], json!({
         "functions": ["partial::partial_deepex", "partial::partial_derivative_inner", "partial::partial_derivative_outer", "partial::make_partial_derivative_ops (all rules)", "partial::log_deri",
             "DeepEx::{add,sub,mul,div,pow,neg} with is_zero/is_one shortcuts", "DeepEx::operate_bin/operate_unary/compile", "Differentiate::partial_iter_relaxed", "FlatEx::to_deepex/from_deepex"],
         "assumptions": ["reals instead of floats ('exactly over exact arithmetic'); elementary functions uninterpreted with ground-instantiated laws (pow for small integer exponents, pow(a,b)*a = pow(a,b+1), sqrt(t)^2 = t, ln monotone, exp > 0, cosh >= 1)",
@@ -718,6 +895,10 @@ pub fn c18(args: &Args) -> i32 {
                 }
                 let p = pw(f, c, g);
                 pool.push(p.clone());
+                if ctr % 3 == 0 {
+                    // the condition as its own parenthesised group
+                    pool.push(pw(f, &Tree::paren(c.clone()), g));
+                }
                 match ctr % 6 {
                     0 => pool.push(Tree::bin(o.mul, Tree::paren(p.clone()), v("y"))),
                     1 => pool.push(Tree::un(k("sin"), p.clone())),
@@ -733,7 +914,15 @@ pub fn c18(args: &Args) -> i32 {
     std::panic::set_hook(Box::new(|_| {}));
     let tab1 = tab.clone();
     let (o1, w1) = par_calc(args, &tab, true, &pool, &move |t: &Tree, _i, out| check_derivative(&tab1, t, 1, &[Form::Flat, Form::Deep], out, 48));
+    // second order incl. mixed partials: the condition of a first derivative is its own sub-expression
+    let pool2: Vec<Tree> = pool.iter().step_by(if quick { 5 } else { 2 }).cloned().collect();
+    let tab2 = tab.clone();
+    let (o2, w2) = par_calc(args, &tab, true, &pool2, &move |t: &Tree, _i, out| check_derivative(&tab2, t, 2, &[Form::Flat, Form::Deep], out, 48));
     let _ = std::panic::take_hook();
+    let p2 = to_part("piecewise-second-order", o2, w2, json!({
+        "pool": format!("{} of the piecewise expressions", pool2.len()),
+        "check": "partial_iter([i, j]) for every ordered pair of variables == dual-number derivative of the symbolic tree derivative (mixed partials included)",
+    }));
     let p1 = to_part("piecewise", o1, w1, json!({
         "table": "metadata of the real ValOpsFactory::<i32,f64>::make() transplanted to T = Sym",
         "pool": format!("{} expressions: `f if c else g` for 8 branch expressions x 6 comparison conditions (quick: every 2nd), each also inside arithmetic, under sin, with a nested piecewise branch, as difference of two piecewise terms, with a piecewise first branch", pool.len()),
@@ -741,7 +930,7 @@ pub fn c18(args: &Args) -> i32 {
         "reference": "dual numbers; comparisons keep their value, if/else differentiate per operand, so the reference derivative is ite(c, f', g')",
         "forms": ["flat", "deep"],
     }));
-    finish(args, "C18", vec![p1], vec![], json!({
+    finish(args, "C18", vec![p1, p2], vec![], json!({
         "functions": ["partial::make_partial_derivative_ops (if, else, comparison entries)", "partial::partial_derisval", "partial::partial_derivative_inner", "DeepEx::operate_bin"],
         "assumptions": ["reals for numbers; the value kinds (Int/Float mixing, From<f32>, From<u8>, the if/else/comparison functions themselves) are engine K's cells", "a condition is not differentiated, so no assumption about branch boundaries is needed for the expression-level claim"],
         "outside": ["arrays (documented as unsupported by differentiation)", "piecewise nesting deeper than 2"],
